@@ -592,11 +592,11 @@ func (m *Mux) serveGRPC(w http.ResponseWriter, r *http.Request) {
 		h.Set("Grpc-Message", encodeGrpcMessage(m))
 	}
 	if p := st.Proto(); p != nil && len(p.Details) > 0 {
-		stBytes, err := proto.Marshal(p)
-		if err != nil {
-			panic(err)
+		// A status that cannot be marshaled (message that is not valid
+		// UTF-8) is sent without the details header, as grpc-go does.
+		if stBytes, err := proto.Marshal(p); err == nil {
+			h.Set("Grpc-Status-Details-Bin", encodeBinHeader(stBytes))
 		}
-		h.Set("Grpc-Status-Details-Bin", encodeBinHeader(stBytes))
 	}
 	setOutgoingHeader(h, stream.trailer)
 
